@@ -1,5 +1,5 @@
 #!/bin/bash
-# usage: tools/sweep_seeded.sh <repo-checkout> [id-prefix]
+# usage: tools/sweep_seeded.sh <repo-checkout> [id-prefix | _controls]   (_controls: only the negative controls)
 # Regression sweep: applies every kept seeded change (and every behaviour-preserving refactor under
 # seeded/_correct_refactors) to a scratch checkout of zxcalc/quizx -- never /repo itself -- runs the
 # quick check of its property against that checkout, reverts, and prints one line per change:
@@ -24,7 +24,9 @@ run() { # id prop patch expected
   local verdict=OK; [ "$rc" != "$exp" ] && { verdict=UNEXPECTED; bad=1; }
   echo "$id $prop exit=$rc expected=$exp $verdict  $cls"
 }
+CONTROLS_ONLY=0; [ "$PFX" = "_controls" ] && { CONTROLS_ONLY=1; PFX=""; }
 for d in "$ROOT"/seeded/${PFX}*/; do
+  [ $CONTROLS_ONLY = 1 ] && break
   id=$(basename "$d"); case "$id" in _*) continue;; esac
   prop=${id%%-*}
   run "$id" "$prop" "$d/patch.diff" 1
